@@ -9,6 +9,9 @@
 #include <tapkee/utils/arpack_wrapper.hpp>
 #endif
 #include <tapkee/routines/matrix_operations.hpp>
+#ifdef TAPKEE_VERIF
+#include <tapkee/routines/eigendecomposition.hpp>
+#endif
 /* End of Tapkee includes */
 
 namespace tapkee
@@ -169,6 +172,28 @@ EigendecompositionResult generalized_eigendecomposition(const EigenMethod& metho
                                                         const LMatrixType& lhs, const RMatrixType& rhs,
                                                         IndexType target_dimension)
 {
+#ifdef TAPKEE_VERIF
+    if (verif_eigen_observer::get() && !verif_eigen_observer::busy())
+    {
+        verif_eigen_observer::busy() = true;
+        EigendecompositionResult observed;
+        try
+        {
+            observed = generalized_eigendecomposition(method, strategy, eigen_strategy, lhs, rhs, target_dimension);
+        }
+        catch (...)
+        {
+            verif_eigen_observer::busy() = false;
+            verif_eigen_observer::get()(DenseMatrix(lhs), DenseMatrix(rhs), EigendecompositionResult(), target_dimension,
+                                        eigen_strategy.skip(), eigen_strategy.is(SmallestEigenvalues), true);
+            throw;
+        }
+        verif_eigen_observer::busy() = false;
+        verif_eigen_observer::get()(DenseMatrix(lhs), DenseMatrix(rhs), observed, target_dimension,
+                                    eigen_strategy.skip(), eigen_strategy.is(SmallestEigenvalues), true);
+        return observed;
+    }
+#endif
     Logging::instance().message_info(fmt::format("Using the {} eigendecomposition method.", get_eigen_method_name(method)));
 #ifdef TAPKEE_WITH_ARPACK
     if (method.is(Arpack))
